@@ -360,7 +360,9 @@ fn chunks_cases<W: WX>(ctx: &mut Ctx, widths: &[usize]) {
             let vals = pattern::<W>(w, n, 41);
             for cs in 1..=n + 1 {
                 ctx.sub_evaluations += 1;
-                let mut b = filled::<W>(w, &vals, 0, false);
+                let dirty = cs % 2 == 0;
+                let mut b = filled::<W>(w, &vals, usize::from(dirty), dirty);
+                let before: Vec<W> = b.as_slice().to_vec();
                 let documented_ok = n <= cs || (cs * w) % W::BITS == 0;
                 let r = guard(|| {
                     let mut reads = vec![];
@@ -392,6 +394,8 @@ fn chunks_cases<W: WX>(ctx: &mut Ctx, widths: &[usize]) {
                             let exp: Vec<W> = vals.iter().map(|&x| !x & mask::<W>(w)).collect();
                             if reads != vals || got != exp {
                                 ctx.violation("C10|BitFieldVec::try_chunks_mut|wrong-elements", format!("W={} width={w} len={n} chunk_size={cs}: chunk views do not address the corresponding elements (read {} values)", W::NAME, reads.len()));
+                            } else if let Some(e) = outside_unchanged(&before, b.as_slice(), w, 0, n) {
+                                ctx.violation("C10|BitFieldVec::try_chunks_mut|writes-outside-range", format!("W={} width={w} len={n} chunk_size={cs}: {e}", W::NAME));
                             }
                         }
                     }
